@@ -8,7 +8,7 @@ fn field<'a>(case: &'a str, key: &str) -> &'a str {
 
 pub fn enum_make_query(_s: u64) -> Vec<String> {
     let mut v = vec![];
-    for flag in ["f", "t"] { for id in [0usize, 1, 7, 1000] { for ctor in ["make_query", "parse_query", "start_query", "timer"] {
+    for flag in ["f", "t"] { for id in [0usize, 1, 7, 1000] { for ctor in ["make_query", "parse_query", "parse_query_ground", "start_query", "timer"] {
         v.push(format!("flag={};id={};ctor={}", flag, id, ctor));
     } } }
     v
@@ -32,6 +32,18 @@ pub fn check_make_query(case: &str) -> Result<(), String> {
         cancel_timer(t);
         if stopped { return Err("stop flag of an earlier (timed-out) query still set after start_query_timer(); solve() would report a timeout".into()); }
         return Ok(());
+    }
+    if field(case, "ctor") == "parse_query_ground" {
+        // a query without variables, given with its final period
+        let query = parse_query("p(a).").unwrap();
+        if query_stopped() {
+            let sn = make_base_node(std::rc::Rc::new(query), &kb);
+            let ans = next_solution(sn);
+            return Err(format!("stop flag still set after parse_query of a ground query; it then yields {}", if ans.is_some() { "an answer" } else { "no answer (p(a) is a fact)" }));
+        }
+        if get_var_id() != 0 { return Err(format!("id counter not restarted by parse_query of a ground query: {}", get_var_id())); }
+        let sn = make_base_node(std::rc::Rc::new(query), &kb);
+        return match next_solution(sn) { Some(_) => Ok(()), None => Err("ground query has no answer although p(a) is a fact".into()) };
     }
     let query = match field(case, "ctor") {
         "make_query" => make_query(vec![Unifiable::Atom("p".to_string()), Unifiable::LogicVar { id: 0, name: "$X".to_string() }]),
